@@ -247,6 +247,32 @@ func runC13(r *fw.Run) {
 			return true
 		})
 		r.Expect("C13-R5", "assignments of the trigger id result", nRet, 1)
+		okPath, nSum := componentOnEveryPath(fi,
+			func(c *ast.CallExpr) bool { fn := fw.Callee(info, c); return fn != nil && fn.Name() == "Sum64" },
+			func(a fw.CondAtom) bool {
+				if a.Kind == "Nil" && fw.IsFieldSel(info, a.X, "resolve", "Context", "SubgraphHeadersBuilder") {
+					return true
+				}
+				if a.Kind == "Eq" {
+					if v, isC := fw.ConstVal(info, a.Y); isC && v == "0" {
+						if id, isID := ast.Unparen(a.X).(*ast.Ident); isID && fw.VarFromCall(fi, info.Uses[id], id.Pos(), "resolve", "SubgraphHeadersBuilder.HeadersForSubgraph", 1) {
+							return true
+						}
+					}
+				}
+				return false
+			},
+			func(nd ast.Node) bool {
+				c, isC := nd.(*ast.CallExpr)
+				if !isC {
+					return false
+				}
+				fn := fw.Callee(info, c)
+				return fn != nil && fn.Name() == "Write" && len(c.Args) == 1 && d.Derives(c.Args[0], d.IsCallTo("resolve", "SubgraphHeadersBuilder.HeadersForSubgraph"))
+			})
+		r.Expect("C13-R5", "Sum64 in prepareTrigger", nSum, 1)
+		r.Check(okPath, "C13-R5", fi.Name()+"/headers-hash-on-every-path", fi.Pos(), "the trigger digest is fed the headers hash on every path on which a headers builder exists and the hash is non-zero",
+			"a path reaches Sum64 with a non-zero forwarded-headers hash that was not written into the digest: subscribers with different forwarded headers share one upstream subscription")
 	}
 	// both entry points hand exactly that id to addSubscription
 	for _, name := range []string{"Resolver.ResolveGraphQLSubscription", "Resolver.AsyncResolveGraphQLSubscription"} {
